@@ -38,6 +38,20 @@ def determinism(n):
     for i in range(n):
         sampler = "ns" if i % 2 == 0 else "ins"
         worlds.append(swarm.build_world(seed, 900000 + i, sampler, [sampler, "res"], rr, p_fault=0.7, max_cycles=3))
+    # every fault kind the checks use takes part: a signal inside a file-system event, and a kill chain in which the
+    # restored run is killed inside its first checkpoint
+    for i in range(4):
+        sampler = "ns" if i % 2 == 0 else "ins"
+        w = swarm.build_world(seed, 900500 + i, sampler, [sampler, "res"], rr, p_fault=0.0, stalls=False)
+        if i < 2:
+            w["plan"] = [{"inc": 0, "kind": "signal_fs", "signum": 15, "event": 12 + 9 * i}]
+        else:
+            w["plan"] = [{"inc": 0, "kind": "kill_fs", "event": 14, "prefix": None},
+                         {"inc": 1, "kind": "kill_fs", "event": 3, "prefix": 100}]
+        w["downtimes"] = [60.0, 5.0]
+        w["max_incarnations"] = 4
+        worlds.append(w)
+    n = len(worlds)
     runs = {}
     for jobs in (16, 5):
         for rep in range(2):
